@@ -730,17 +730,17 @@ def check_counts_pipeline(ctx):
 def check(ctx):
     m = ctx.model
     ctx.rule("R13.14", "tk.Circuit.get_counts: options under their own names; raw counts per circuit in order; normalise, keep the outcomes agreeing with the recorded post-selection keyed by the other bits, scale by the recorded scalar")
-    check_counts_pipeline(ctx)
+    ctx.attempt(check_counts_pipeline, ctx)
     top = m.func(TK + ".to_tk")
     ctx.rule("R13.15", "measurements: the j-th wire of the box goes from qubits[qubit_offset + j] into its own bit (Measure(qubit, bit)); effects post-select that bit on their j-th digit; discarded bits are the all-ones effect")
-    check_measurements(ctx, top)
-    check_classical_gate_types(ctx)
+    ctx.attempt(check_measurements, ctx, top)
+    ctx.attempt(check_classical_gate_types, ctx)
     ctx.rule("R13.13", "swaps in to_tk: two qubit (bit) wires exchange their registers through a temporary unit; with a classical post-processing the swap is applied to its outputs at the wire position")
-    check_swap_handler(ctx, top)
+    ctx.attempt(check_swap_handler, ctx, top)
     fn = m.func(TK + ".from_tk")
-    check_prepare(ctx, top)
-    check_bit_positions(ctx, top)
-    check_add_bit(ctx)
-    check_from_tk_bits(ctx, fn)
-    check_adjacent(ctx, fn)
-    check_rename_units(ctx)
+    ctx.attempt(check_prepare, ctx, top)
+    ctx.attempt(check_bit_positions, ctx, top)
+    ctx.attempt(check_add_bit, ctx)
+    ctx.attempt(check_from_tk_bits, ctx, fn)
+    ctx.attempt(check_adjacent, ctx, fn)
+    ctx.attempt(check_rename_units, ctx)
